@@ -421,6 +421,7 @@ def check(case, vals=None):
         if s["op"] == "map_blocks":
             labs.add("map_blocks:" + s.get("mode", "dtype"))
     refused = False
+    dask_index0 = any(s["op"] == "getitem_dask0d" for s in prog["stmts"])
     # ---- the drawn inspections
     for name in case["inspect"]:
         ph, fn = ACCESSORS[name]
@@ -432,7 +433,10 @@ def check(case, vals=None):
                 except NotImplementedError:
                     labs.add("refused:" + name)
                 except Exception as e:
-                    fails.append((util.exc_bucket("inspect:" + name, e), f"output {o}: " + util.exc_detail(e)))
+                    if dask_index0:
+                        labs.add("inspect-raised-under-dask-index")  # C12's listed crashes (see execution below)
+                    else:
+                        fails.append((util.exc_bucket("inspect:" + name, e), f"output {o}: " + util.exc_detail(e)))
             audit.look(f"{name} of output {o}")
     # ---- always: optimise a fresh build under the rewrite recorder
     with S.phase("build"):
@@ -452,7 +456,10 @@ def check(case, vals=None):
                     labs.add("refused:optimize")
                 except Exception as e:
                     recs = []
-                    fails.append((util.exc_bucket("inspect:optimize", e), f"output {o}: " + util.exc_detail(e)))
+                    if dask_index0:
+                        labs.add("inspect-raised-under-dask-index")
+                    else:
+                        fails.append((util.exc_bucket("inspect:optimize", e), f"output {o}: " + util.exc_detail(e)))
             audit.look(f"optimize (recorded) of output {o}")
             for rule, before, after in recs:
                 if rule.startswith("FromArray."):
